@@ -134,13 +134,14 @@ func TestScript(t *testing.T) {
 	sc := bufio.NewScanner(f)
 	sc.Buffer(make([]byte, 1<<20), 1<<26)
 	total, n := 0, 0
+	ncfg := envInt("VERIF_SCRIPT_NCFG", 2)
 	for i := 0; sc.Scan(); i++ {
 		var script []map[string]any
 		if err := json.Unmarshal(sc.Bytes(), &script); err != nil {
 			t.Fatalf("script %d: %v", i, err)
 		}
 		// rotate configurations over scripts; every script runs under two of them
-		for j := 0; j < 2 && j < len(cfgNames); j++ {
+		for j := 0; j < ncfg && j < len(cfgNames); j++ {
 			cn := cfgNames[(i+j)%len(cfgNames)]
 			path := filepath.Join(out, fmt.Sprintf("S-%s-%05d-%s.ndjson", prof.Name, i, cn))
 			k, ferr := runScript(u, cfgs[cn], prof, script, path)
